@@ -202,3 +202,54 @@ impl<'a> DDNNFFold for SddPtr<'a> {
 //%% @rewrite 1 /debug_assert!\(self\.is_scratch_cleared\(\)\);/ => 
 //%% end
 }
+
+// ---- the custom iterator behind `node_iter()` (src/repr/sdd/sdd_or.rs): its `next` is under contract, which narrows A-sdd-node-iter
+// to the protocol of `for` (call `next` until it answers None) ----
+//%% extract src/repr/sdd/sdd_or.rs :: - :: struct SddNodeIter
+//%% @pub
+//%% end
+impl<'a> BinarySDD<'a> {
+//%% extract src/repr/sdd/binary_sdd.rs :: impl<'a> BinarySDD<'a> :: fn low
+//%% @ret r
+//%% @spec
+        ensures r == self.low,
+//%% end
+//%% extract src/repr/sdd/binary_sdd.rs :: impl<'a> BinarySDD<'a> :: fn high
+//%% @ret r
+//%% @spec
+        ensures r == self.high,
+//%% end
+//%% extract src/repr/sdd/binary_sdd.rs :: impl<'a> BinarySDD<'a> :: fn label
+//%% @ret r
+//%% @spec
+        ensures r == self.label,
+//%% end
+}
+impl<'a> SddAnd<'a> {
+//%% extract src/repr/sdd/sdd_or.rs :: impl<'a> SddAnd<'a> :: fn new
+//%% @ret r
+//%% @spec
+        ensures r.prime == prime, r.sub == sub,
+//%% end
+}
+// R-trait-inherent: `impl<'a> Iterator for SddNodeIter<'a> { type Item = SddAnd<'a>; fn next .. }` is emitted as an inherent method
+// (`Self::Item` spelled out); `panic!(..)` on a constant is the precondition
+impl<'a> SddNodeIter<'a> {
+//%% extract src/repr/sdd/sdd_or.rs :: impl<'a> SddNodeIter<'a> :: fn new
+//%% @ret r
+//%% @spec
+        ensures r.sdd == sdd, r.count == 0,
+//%% end
+//%% extract src/repr/sdd/sdd_or.rs :: impl<'a> Iterator for SddNodeIter<'a> :: fn next
+//%% @pub
+//%% @ret r
+//%% @rewrite 1 /Option<Self::Item>/ => Option<SddAnd<'a>>
+//%% @rewrite 1 /panic!\("called iterator on constant"\)/ => unreached()
+//%% @spec
+        requires sdd_is_node(old(self).sdd), old(self).count <= sdd_elems(old(self).sdd).len(),
+        ensures
+            final(self).sdd == old(self).sdd,
+            old(self).count < sdd_elems(old(self).sdd).len() ==> r == Some(sdd_elems(old(self).sdd)[old(self).count as int]) && final(self).count == old(self).count + 1,
+            old(self).count >= sdd_elems(old(self).sdd).len() ==> r is None && final(self).count == old(self).count,
+//%% end
+}
